@@ -274,7 +274,9 @@ func runFanoutHistory(cfgTok, evTok string) string {
 	var order []uint64
 	var msgs []pubMsg
 	var tsBlobs, patBlobs, sdpBlobs [][]byte
+	recvBufs := map[uint8][]byte{}
 	pushAttached := false
+	wantOpened := 0
 	var pushSegments [][]base.RtmpMsg // one per input epoch
 
 	waitUntil := func(cond func() bool) bool {
@@ -345,6 +347,16 @@ func runFanoutHistory(cfgTok, evTok string) string {
 				if !waitUntil(func() bool { return group.VerifPushSessionCount() == 1 }) {
 					return "err-push-not-attached"
 				}
+				// ... and until the stub origin has registered the session: the client side is
+				// attached as soon as it got the publish status, the origin's callback may come later
+				wantOpened++
+				if !waitUntil(func() bool {
+					target.mu.Lock()
+					defer target.mu.Unlock()
+					return target.opened >= wantOpened
+				}) {
+					return "err-push-not-seen-by-target"
+				}
 				pushAttached = true
 			}
 		case "O":
@@ -413,7 +425,22 @@ func runFanoutHistory(cfgTok, evTok string) string {
 				m.tag = append([]byte{}, l2t.GetEnsureWithoutSdf()...)
 			}
 			msgs = append(msgs, m)
+			// a real publisher session reuses its receive buffer for every message of a
+			// chunk stream ("the payload block is reused after the callback returns"):
+			// hand the group a payload that lives in such a per-type buffer
+			rb := recvBufs[m.t]
+			if cap(rb) < len(m.payload) {
+				rb = make([]byte, len(m.payload), 2*len(m.payload)+16)
+			}
+			rb = rb[:len(m.payload)]
+			copy(rb, m.payload)
+			recvBufs[m.t] = rb
+			msg.Payload = rb
 			group.OnReadRtmpAvMsg(msg)
+			// ... and scribble over it afterwards, as the next message on that chunk stream would
+			for i := range rb {
+				rb[i] ^= 0x5a
+			}
 		case "Jr", "Jf", "Jw", "Jt", "Jp":
 			id := numTok(f[1])
 			if _, ok := consumers[id]; ok {
@@ -646,6 +673,21 @@ func runFanoutHistory(cfgTok, evTok string) string {
 }
 
 func init() {
-	httpts.SubSessionWriteChanSize = 0
-	register("c01.hist", func(a []string) string { return runFanoutHistory(a[0], a[1]) })
+	register("c01.hist", func(a []string) string {
+		// synchronous writes for the HTTP subscribers of this history only
+		oldTs, oldFlv := httpts.SubSessionWriteChanSize, httpflv.SubSessionWriteChanSize
+		httpts.SubSessionWriteChanSize, httpflv.SubSessionWriteChanSize = 0, 0
+		defer func() { httpts.SubSessionWriteChanSize, httpflv.SubSessionWriteChanSize = oldTs, oldFlv }()
+		return runFanoutHistory(a[0], a[1])
+	})
+	// the per-message conversions every consumer shares
+	register("c01.conv", func(a []string) string {
+		p := bytesTok(a[2])
+		msg := base.RtmpMsg{Header: base.RtmpHeader{MsgLen: uint32(len(p)), MsgTypeId: uint8(numTok(a[0])), MsgStreamId: 77, Csid: 99, TimestampAbs: uint32(numTok(a[1]))}, Payload: p}
+		var lcd remux.LazyRtmpChunkDivider
+		var l2t remux.LazyRtmpMsg2FlvTag
+		lcd.Init(msg.Clone())
+		l2t.Init(msg.Clone())
+		return fmt.Sprintf("%s %s %s", tokBytes(lcd.GetEnsureWithoutSdf()), tokBytes(lcd.GetEnsureWithSdf()), tokBytes(l2t.GetEnsureWithoutSdf()))
+	})
 }
